@@ -61,14 +61,26 @@ def tag(res):
 
 # ----------------------------------------------------------------------------- OS ground truth
 
-def pid_alive(pid):
-    """True iff pid exists and is not a zombie."""
+def has_tag(pid, tag):
+    """The process carries VF_SCN=<tag> in its initial environment, i.e. it descends from the server of that scenario.
+    Pids are recycled within minutes when several checks run side by side: a recorded pid is only trusted with its tag."""
+    try:
+        with open('/proc/%d/environ' % pid, 'rb') as f:
+            return ('VF_SCN=' + tag).encode() in f.read()
+    except OSError:
+        return False
+
+
+def pid_alive(pid, tag=None):
+    """True iff pid exists, is not a zombie and (if a tag is given) still is the process we recorded."""
     try:
         with open('/proc/%d/stat' % pid) as f:
             s = f.read()
-        return s[s.rindex(')') + 2] not in 'ZX'
+        if s[s.rindex(')') + 2] in 'ZX':
+            return False
     except (FileNotFoundError, ProcessLookupError, ValueError, IndexError):
         return False
+    return True if tag is None else has_tag(pid, tag)
 
 
 def proc_table():
@@ -149,33 +161,36 @@ def tagged_pids(tag):
     return sorted(out)
 
 
-def await_dead(pids, timeout, poll=0.02):
+def await_dead(pids, timeout, poll=0.02, tag=None):
     """Wait until every pid is gone (or zombie); returns the list still alive after `timeout`."""
     t0 = time.time()
-    left = [p for p in pids if pid_alive(p)]
+    left = [p for p in pids if pid_alive(p, tag)]
     while left and time.time() - t0 < timeout:
         time.sleep(poll)
-        left = [p for p in left if pid_alive(p)]
+        left = [p for p in left if pid_alive(p, tag)]
     return left
 
 
-def kill_pids(pids, sig=signal.SIGKILL):
+def kill_pids(pids, sig=signal.SIGKILL, tag=None):
+    """Signal recorded pids - with a tag only those that still carry it (never a recycled pid of somebody else)."""
     for p in pids:
+        if tag is not None and not has_tag(p, tag):
+            continue
         try:
             os.kill(p, sig)
         except (ProcessLookupError, PermissionError):
             pass
 
 
-def reap_tree(root_pid, known=()):
-    """Kill a server and everything that descends from it (by pid; never by name)."""
+def reap_tree(root_pid, known=(), tag=None):
+    """Kill a server and everything that descends from it (by pid; never by name; with a tag: only tagged processes)."""
     pids = set(known)
-    if root_pid and pid_alive(root_pid):
+    if root_pid and pid_alive(root_pid, tag):
         pids.update(descendants(root_pid))
         pids.add(root_pid)
-    pids = [p for p in pids if pid_alive(p)]
-    kill_pids(pids)
-    return await_dead(pids, 2.0)
+    pids = [p for p in pids if pid_alive(p, tag)]
+    kill_pids(pids, tag=tag)
+    return await_dead(pids, 2.0, tag=tag)
 
 
 # ----------------------------------------------------------------------------- tapping socket
